@@ -65,12 +65,13 @@ claimed_file = os.path.join(V, "tools", "claimed.txt")
 claimed = [l.strip() for l in open(claimed_file) if l.strip()] if os.path.exists(claimed_file) else sorted(checks)
 manifest = {
     "version": 1,
-    "setup_cmd": "cd /verif/harness && CARGO_NET_OFFLINE=true CARGO_TARGET_DIR=/verif/target-default cargo build --release --offline",
+    "setup_cmd": "/verif/tools/setup.sh",
     "hooks": {
         "guard": "cargo feature hsivonen_encoding_rs_verif (off by default)",
         "enable": "the harness crate /verif/harness depends on /repo by path with features=[\"hsivonen_encoding_rs_verif\"]; ./check rebuilds it from /repo's working tree",
         "baseline_off_cmd": "cd /repo && cargo test --workspace --no-fail-fast --offline",
         "source_commits": ["f447ad7"],
+        "fix_commits": ["58136fe", "b382b18", "d3eb21d", "b2fd07c", "ee102c5", "ff5c334", "61f3045"],
         "add_only": True,
     },
     "engines": [
